@@ -53,7 +53,8 @@ PROPS["C19"] = {
     "technique": "reference-model monitor: generated rule lists x all lookup keys of small pools, real mapper vs an independent implementation of the documented precedence; constructor-validity oracle; three construction paths",
     "level_text": "Seeded rule lists (0-6 rules over 3 interfaces, 4 CIDRs, 6 local and 6 external v4/v6 addresses, 3 modes, 4 candidate types, network restrictions) are compiled by the real "
                   "newAddressRewriteMapper (and, for lists that qualify, by WithAddressRewriteRules and the legacy NAT1To1IPs path through NewAgent); all 96 lookup keys "
-                  "(3 types x 8 local IPs x 4 interface names) are compared with a reference of the documented precedence on (matched, mode, ordered external IPs); invalid lists must be rejected.",
+                  "(3 types x 8 local IPs x 4 interface names) are compared with a reference of the documented precedence on (matched, mode, ordered external IPs); invalid lists must be rejected. "
+                  "End to end: agents over the fake Net (1-3 named interfaces, 1-2 pool addresses each) gather host candidates under generated rule lists; the addresses published per local socket must be what the precedence gives for (host, local address, interface) in replace / append mode.",
     "level_note": "Sampled rule lists, exhaustive over lookup keys of the pools. Not generated (ambiguous, DESIGN 6): catch-all rules whose CIDR family differs from their externals' family, "
                   "family-restricted rules whose externals are all of the other family, empty External through the public option. End-to-end use during gathering is covered under C18.",
     "rule": "case = one rule list (PRNG from VERIF_SEED, run index) evaluated on 96 lookup keys; distinct_nontrivial counts distinct rule-list shapes "
